@@ -407,7 +407,16 @@ def sec_bounded(rep, tier, seed):
         rep.add(o)
 
     if doc is None:
-        add("C18/bounded/jit-probe-ran", False, f"probe failed: {err}", status=UNDECIDED)
+        # the compiled probe died.  If the same probe completes with the interpreter (JIT off), the two
+        # semantics differ -- one raises where the other returns: a violation (bounded); if the
+        # interpreted probe dies too, the probe itself is broken: undecided
+        ref0, err0 = run_probe(["--samples", str(n), "--seed", str(seed), "--run", "--no-diff"], jit=False)
+        if ref0 is not None:
+            o = Ob("C18/bounded/compiled probe raises where the interpreted probe completes (differential + end-to-end runs)", "bounded", REFUTED, "jit-probe", 0, f"with the JIT on: {err}", {"observed_with_JIT_on": (err or "")[-600:], "with_JIT_off": "completes"}, {"confirmed": True, "cmd": "NUMBA_DISABLE_JIT=0 /venv/bin/python tools/jit_probe.py --run"})
+            o.bounded = True
+            rep.add(o)
+        else:
+            add("C18/bounded/jit-probe-ran", False, f"probe failed with the JIT on ({err}) and off ({err0})", status=UNDECIDED)
         return
     add("C18/bounded/every-declared-signature-compiles", doc["jit_enabled"] and not doc["not_compiled"] and not doc["import_errors"] and doc["dispatchers"] >= 100, f"{doc['dispatchers']} dispatchers compiled with numba {doc['numba']}; not compiled: {doc['not_compiled']}; import errors: {doc['import_errors']}")
     add(f"C18/bounded/differential-jit-vs-interpreter(N={n} per kernel)", not doc["mismatches"], f"{doc['evaluations']} evaluations, {len(doc['mismatches'])} mismatches {doc['mismatches'][:2]}")
